@@ -36,7 +36,6 @@ pub struct LimState {
     pub first_err: Option<(usize, String)>,
     pub started: bool,
     pub finished: bool,
-    pub wkeys: usize,
 }
 thread_local! {
     pub static LIM: RefCell<LimState> = RefCell::new(LimState::default());
@@ -611,7 +610,10 @@ fn record(args: &Args) {
         if let Some(h) = &o.harness_error {
             out.emit(&json!({"harness_error": h}));
         }
-        out.emit(&json!({"a": "run", "mode": if fee { "fee" } else { "nofee" }, "cfg": cfg_json(&p), "prog": ops_json(&ops), "obs": o.json()}));
+        // what the receipt shows: events of the test blueprint and logs recorded (the statement's "no committed
+        // transaction exceeds ..." is checked on these by TraceLimits)
+        out.emit(&json!({"a": "run", "mode": if fee { "fee" } else { "nofee" }, "cfg": cfg_json(&p), "prog": ops_json(&ops), "obs": o.json(),
+                         "seen": {"events": o.events_in_run, "logs": o.logs, "entered": o.started}}));
     }
     // unit level: the LimitsModule's own counters through its public API
     for _ in 0..units {
